@@ -1496,6 +1496,81 @@ def work_default(task):
 
 
 # ---------------------------------------------------------------------------
+# isolation: a fresh object is fresh (premise of the exploration: one fresh object per history)
+# ---------------------------------------------------------------------------
+CTORS = ("plain", "new_path", "from_string_empty", "from_string_file")
+
+
+def eval_isolation(case):
+    E = setup_env()
+    A = E["A"]
+    cls = case["cls"]
+    cfg = {"cls": cls, "enc": "utf-8", "seed": case.get("seed", 0)}
+    mat = Material.of(cfg)
+    vm = VirtualMtime()
+    E["shim"].path.vm = vm
+    kw = {"context": E["ctx"]} if cls == "htpasswd" else {}
+    klass = A.HtpasswdFile if cls == "htpasswd" else A.HtdigestFile
+    rr = [mat.n["r1"]] if cls == "htdigest" else []
+    out = []
+
+    def bad(desc):
+        out.append((f"C16|{cls}|isolation:state_shared_between_objects", f"{case['ctor_a']} then {case['ctor_b']}: {desc}"))
+
+    def make(kind, tag):
+        path = os.path.join(E["dir"], "iso-" + tag)
+        if os.path.exists(path):
+            os.unlink(path)
+        if kind == "plain":
+            return klass(**kw), b""
+        if kind == "new_path":
+            return klass(path, new=True, **kw), b""
+        if kind == "from_string_empty":
+            return klass.from_string(b"", **kw), b""
+        return klass.from_string(mat.files["plain"], **kw), mat.files["plain"]
+
+    def db(obj):
+        return read_db(obj.to_string(), mat.nf)[1]
+
+    try:
+        a, a_init = make(case["ctor_a"], "a")
+        a.set_password(*([mat.n["u1"]] + rr + [mat.n["p2"]]))
+        a.set_hash(*([mat.n["uu"]] + rr + [mat.fixed_hash().decode("ascii")]))
+        a.delete(*([mat.n["u2"]] + rr))
+        a_db = db(a)
+        b, b_init = make(case["ctor_b"], "b")
+        want = read_db(b_init, mat.nf)[1]
+        if db(b) != want:
+            bad(f"a new object starts with {core.short(sorted(db(b), key=repr), 80)} instead of {core.short(sorted(want, key=repr), 80)}")
+        b.set_password(*([mat.n["u2"]] + rr + [mat.n["p1"]]))
+        b.delete(*([mat.n["u1"]] + rr))
+        if db(a) != a_db:
+            bad("editing the second object changed the first one")
+    except HarnessError:
+        raise
+    except Exception as e:  # noqa: BLE001
+        out.append((f"C16|{cls}|isolation:raises:{type(e).__name__}", f"{case['ctor_a']} then {case['ctor_b']}: {e!r}"))
+    return out
+
+
+def isolation_cases(seed):
+    return [{"part": "isolation", "cls": c, "ctor_a": a, "ctor_b": b, "seed": seed, "mode": "normal"}
+            for c in ("htpasswd", "htdigest") for a in CTORS for b in CTORS]
+
+
+def work_isolation(task):
+    acc = Acc()
+    for case in task["cases"]:
+        acc.ev()
+        acc.cls("isolation", case["cls"], case["ctor_a"], case["ctor_b"])
+        vs = eval_isolation(case)
+        acc.outcome(("isolation", "viol" if vs else "ok"))
+        for key, desc in vs:
+            acc.violation(key, desc, case)
+    return acc
+
+
+# ---------------------------------------------------------------------------
 # task routing (normal interpreter <-> python -O subprocess)
 # ---------------------------------------------------------------------------
 def run_task(task):
@@ -1507,6 +1582,8 @@ def run_task(task):
             return work_names(task)
         if part == "default_context":
             return work_default(task)
+        if part == "isolation":
+            return work_isolation(task)
         raise HarnessError(f"unknown part {part}")
     finally:
         teardown_env()
@@ -1567,6 +1644,13 @@ def _main(argv):
 def run(ctx):
     quick = ctx.quick
     depth = 4 if quick else 6
+    # premise of the exploration: every history runs on a FRESH object
+    iso = work({"part": "isolation", "cases": isolation_cases(ctx.seed)})
+    ctx.merge(iso, part="isolation")
+    if iso.violations:
+        ctx.cap("objects share state: the exploration (one fresh object per history) is void and was not run")
+        ctx.assume("isolation of objects failed; only the isolation cases were evaluated")
+        return
     singles, batches = [], {"normal": [], "O": []}
     for mode in ("normal", "O"):
         for cfg in roots(quick, ctx.seed):
@@ -1654,6 +1738,8 @@ def _replay_here(case):
             return [(k, f"[{MODE}] {d}") for k, d in eval_name(case)]
         if part == "default_context":
             return eval_default(case)
+        if part == "isolation":
+            return eval_isolation(case)
         raise HarnessError(f"unknown case part {part}")
     finally:
         teardown_env()
